@@ -186,3 +186,11 @@ package middleware
 //@ func redirectToHTTPS$1
 //@ prop C17
 //@ at call ServeHTTP assert[next-gets-request-and-writer-unchanged] recv(ServeHTTP) == next && arg(ServeHTTP, 0) == rw && arg(ServeHTTP, 1) == req
+
+// ------------------------------------------------------------------ C19 / C01 / C12: the `nonnil` loader fields are established by the constructor
+//@ func NewStoredSessionLoader
+//@ prop C19 C01 C12
+//@ ensures[nonnil:loader-fields-are-the-options] ss.store == opts.SessionStore && ss.sessionRefresher == opts.RefreshSession
+//@     && ss.sessionValidator == opts.ValidateSession && ss.refreshPeriod == opts.RefreshPeriod
+//@ prop C19
+//@ scan[nonnil:stored-loader-allocated-by-its-constructor] alloc-of pkg/middleware.storedSessionLoader pkg/middleware.NewStoredSessionLoader
